@@ -75,11 +75,43 @@ type world struct {
 	inbox     []J                   // messages from the Conn the reflecting peer has not handled yet
 	nextPeerQ int                   // next question id the reflecting peer uses
 	reflected map[int]int           // peer question id (reflected call) -> the Conn's question id it came from
+	holds     []*hold               // outgoing messages to be held inside transport.send (script actions hold-send / release-send)
 	queueSize int                   // server.Policy.AnswerQueueSize of the capabilities of this script (script action "policy")
 	paramExp  map[int]int           // call tag -> export id the Conn assigned to the capability in the call's parameters
 	reflect   bool                  // the script is an embargo scenario: the peer keeps an inbox and reflects
 	onCancel  map[int]string        // what a cancelled method body does (default: gives up with an error)
 	recvTag   map[int]bool          // tags of calls the peer sent (a call of the Conn carrying one of them is a forwarded call)
+}
+
+// hold: the next message of kind m (and id q, -1 = any) the Conn sends is kept inside transport.send - it has been
+// recorded, the peer "has not received it yet", the Conn's sender still holds the sender lock - until release-send
+type hold struct {
+	m       string
+	q       int
+	release chan struct{}
+	hit     bool
+}
+
+func (w *world) maybeHold(m string, q int) {
+	w.mu.Lock()
+	var h *hold
+	for _, x := range w.holds {
+		if !x.hit && x.m == m && (x.q < 0 || x.q == q) {
+			x.hit = true
+			h = x
+			break
+		}
+	}
+	w.mu.Unlock()
+	if h == nil {
+		return
+	}
+	w.log(J{"ev": "held", "m": m, "q": q})
+	select {
+	case <-h.release:
+	case <-time.After(1500 * time.Millisecond):
+		w.log(J{"ev": "hold-expired", "m": m, "q": q})
+	}
 }
 
 func base() J {
@@ -318,6 +350,9 @@ func (w *world) recordSend(m rpccp.Message) {
 	}
 	w.log(e)
 	w.peerSees(e)
+	mm, _ := e["m"].(string)
+	qq, _ := e["q"].(int)
+	w.maybeHold(mm, qq)
 }
 
 // peerSees is the reflecting peer's inbox (embargo scenarios): pipelined calls, calls forwarded to the
@@ -721,6 +756,15 @@ func runScript(id string, script []action) (trace []J, hang string) {
 		}
 		// wind down: the reflecting peer handles what is left in its inbox; complete every started method,
 		// release local handles, close
+		w.mu.Lock()
+		for _, h := range w.holds {
+			select {
+			case <-h.release:
+			default:
+				close(h.release)
+			}
+		}
+		w.mu.Unlock()
 		drain := func() {
 			for i := 0; i < 32 && !closed; i++ {
 				w.mu.Lock()
@@ -826,7 +870,15 @@ func errKind(err error) string {
 
 type reporter struct{ w *world }
 
-func (r reporter) ReportError(err error) { r.w.log(J{"ev": "reported", "h": err.Error()}) }
+func (r reporter) ReportError(err error) {
+	// errors the connection blames on what it received ("rpc: incoming <message>: ...") are marked: with a well-formed
+	// peer there must be none while the connection is open
+	kind := ""
+	if strings.HasPrefix(err.Error(), "rpc: incoming ") && !strings.Contains(err.Error(), "send ") {
+		kind = "blames-peer"
+	}
+	r.w.log(J{"ev": "reported", "h": err.Error(), "kind": kind})
+}
 
 func (w *world) step(a action, closed *bool) {
 	switch a.A {
@@ -1110,6 +1162,28 @@ func (w *world) step(a action, closed *bool) {
 		w.deliver(msg, J{"m": "release", "e": exp, "n": a.K})
 	case "p-pump":
 		w.pump(a)
+	case "hold-send":
+		w.mu.Lock()
+		w.holds = append(w.holds, &hold{m: a.Kind, q: a.Q, release: make(chan struct{})})
+		w.mu.Unlock()
+	case "release-send":
+		w.mu.Lock()
+		for _, h := range w.holds {
+			select {
+			case <-h.release:
+			default:
+				close(h.release)
+			}
+		}
+		w.mu.Unlock()
+		// barrier: the sender whose message was held has finished its bookkeeping once the sender lock is free again
+		for i := 0; i < 400; i++ {
+			if mu, snd := w.conn.VerifLocksFree(); mu && snd {
+				break
+			}
+			time.Sleep(500 * time.Microsecond)
+		}
+		w.log(J{"ev": "released"})
 	case "policy":
 		// applied before the Conn was created
 	case "a-oncancel":
